@@ -354,6 +354,11 @@ impl<'a> Walk<'a> {
     fn block(&mut self, stmts: &[syn::Stmt], guard: &Guard, cx: &Ctx, top: bool) -> Result<(), String> {
         let mut cx = cx.clone();
         for st in stmts {
+            // `#[cfg(..)] args.push(..)` is NOT an unconditional push: any attribute other than a doc comment on a
+            // statement of an argument builder is a shape this translator does not read
+            if let Some(a) = stmt_non_doc_attr(st) {
+                return Err(format!("{}: attribute `{a}` on a builder statement", cx.what));
+            }
             match st {
                 syn::Stmt::Local(l) => {
                     let init = l.init.as_ref().ok_or_else(|| format!("{}: let without initialiser", cx.what))?;
@@ -571,6 +576,37 @@ impl<'a> Walk<'a> {
     }
 }
 
+/// first attribute of a statement (or of its expression) that is not a doc comment
+fn stmt_non_doc_attr(st: &syn::Stmt) -> Option<String> {
+    fn pick(attrs: &[syn::Attribute]) -> Option<String> {
+        attrs.iter().find(|a| !a.path().is_ident("doc")).map(|a| toks(a))
+    }
+    fn of_expr(e: &syn::Expr) -> Option<String> {
+        match e {
+            syn::Expr::MethodCall(x) => pick(&x.attrs),
+            syn::Expr::Call(x) => pick(&x.attrs),
+            syn::Expr::If(x) => pick(&x.attrs),
+            syn::Expr::Block(x) => pick(&x.attrs),
+            syn::Expr::Macro(x) => pick(&x.attrs),
+            syn::Expr::Assign(x) => pick(&x.attrs),
+            syn::Expr::Match(x) => pick(&x.attrs),
+            syn::Expr::Return(x) => pick(&x.attrs),
+            syn::Expr::Try(x) => pick(&x.attrs),
+            syn::Expr::Paren(x) => pick(&x.attrs),
+            syn::Expr::ForLoop(x) => pick(&x.attrs),
+            syn::Expr::While(x) => pick(&x.attrs),
+            syn::Expr::Unsafe(x) => pick(&x.attrs),
+            _ => None,
+        }
+    }
+    match st {
+        syn::Stmt::Local(l) => pick(&l.attrs).or_else(|| l.init.as_ref().and_then(|i| of_expr(&i.expr))),
+        syn::Stmt::Expr(e, _) => of_expr(e),
+        syn::Stmt::Macro(m) => pick(&m.attrs),
+        syn::Stmt::Item(_) => None,
+    }
+}
+
 fn table_of<'a>(f: &syn::ImplItemFn, roots: Vec<(Vec<String>, Vec<String>)>, files: Vec<&'a syn::File>, what: &str) -> Result<(Vec<Entry>, Vec<(String, Src)>), String> {
     let mut w = Walk { entries: vec![], pending: None, label_src: None, ctx_fields: vec![], files, depth: 0, args_var: "args".into() };
     let cx = Ctx { roots, locals: HashMap::new(), lits: HashMap::new(), what: what.to_string() };
@@ -590,6 +626,45 @@ impl<'ast, 'a> syn::visit::Visit<'ast> for FindStruct<'a> {
     fn visit_expr_struct(&mut self, s: &'ast syn::ExprStruct) {
         if s.path.segments.last().map(|x| x.ident == self.name).unwrap_or(false) {
             self.found.push(s.clone());
+        }
+        syn::visit::visit_expr_struct(self, s);
+    }
+}
+
+/// `<x>.install(a, b)` / `.uninstall(a, b)` method calls on a receiver whose name contains `service_control`: their argument lists
+fn service_control_calls(block: &syn::Block, method: &str) -> Vec<Vec<syn::Expr>> {
+    struct V<'a> {
+        method: &'a str,
+        out: Vec<Vec<syn::Expr>>,
+    }
+    impl<'ast, 'a> syn::visit::Visit<'ast> for V<'a> {
+        fn visit_expr_method_call(&mut self, m: &'ast syn::ExprMethodCall) {
+            if m.method == self.method && compact(&m.receiver).contains("service_control") {
+                self.out.push(m.args.iter().cloned().collect());
+            }
+            syn::visit::visit_expr_method_call(self, m);
+        }
+    }
+    let mut v = V { method, out: vec![] };
+    syn::visit::Visit::visit_block(&mut v, block);
+    v.out
+}
+
+/// counts struct literals of one name, skipping `#[cfg(test)]` modules
+struct FindStructOutsideTests<'a> {
+    name: &'a str,
+    found: usize,
+}
+impl<'ast, 'a> syn::visit::Visit<'ast> for FindStructOutsideTests<'a> {
+    fn visit_item_mod(&mut self, m: &'ast syn::ItemMod) {
+        if m.attrs.iter().any(|a| compact(a).contains("cfg(test)")) {
+            return;
+        }
+        syn::visit::visit_item_mod(self, m);
+    }
+    fn visit_expr_struct(&mut self, s: &'ast syn::ExprStruct) {
+        if s.path.segments.last().map(|x| x.ident == self.name).unwrap_or(false) {
+            self.found += 1;
         }
         syn::visit::visit_expr_struct(self, s);
     }
@@ -1026,8 +1101,119 @@ pub fn generate(repo: &PathBuf) -> Result<String, String> {
     } else {
         return Err("cmd::node::add: how ANT_PEERS reaches peers_args.addrs is not a shape I know".into());
     };
-    if add_cmd_src.matches("peers_args.").count() != add_cmd_src.matches("peers_args.addrs.extend").count() + add_cmd_src.matches("peers_args.first").count() + add_cmd_src.matches("peers_args.bootstrap_cache_dir=bootstrap_cache_dir").count() {
+    // `--bootstrap-cache-dir` given to `antctl add`: kept (the service user's default only fills the gap), or overwritten
+    let keep_shape = "ifpeers_args.bootstrap_cache_dir.is_none(){peers_args.bootstrap_cache_dir=bootstrap_cache_dir;}";
+    let add_keeps_cache_dir = if add_cmd_src.contains(keep_shape) {
+        true
+    } else if add_cmd_src.contains(";peers_args.bootstrap_cache_dir=bootstrap_cache_dir;") || add_cmd_src.contains("}peers_args.bootstrap_cache_dir=bootstrap_cache_dir;") {
+        false
+    } else {
+        return Err("cmd::node::add: how the bootstrap cache directory reaches peers_args is not a shape I know".into());
+    };
+    if add_cmd_src.matches("peers_args.").count()
+        != add_cmd_src.matches("peers_args.addrs.extend").count()
+            + add_cmd_src.matches("peers_args.first").count()
+            + add_cmd_src.matches("peers_args.bootstrap_cache_dir=bootstrap_cache_dir").count()
+            + add_cmd_src.matches("peers_args.bootstrap_cache_dir.is_none()").count()
+    {
         return Err("cmd::node::add: peers_args is modified in a way I do not know".into());
+    }
+
+    // (f) service level (system / user) handed to the service manager: `add_node`, `ServiceManager::upgrade`
+    let libf = parse_file(&repo.join("ant-node-manager/src/lib.rs"))?;
+    let is_user_mode = impl_fn(&svc, "NodeService", Some("ServiceStateActions"), "is_user_mode")?;
+    let ium = compact(&is_user_mode.block);
+    let ium_src = if ium == "{self.service_data.user_mode}" {
+        Src::Var(vec!["user_mode".into()])
+    } else if ium == "{false}" || ium == "{true}" {
+        Src::Const(ium.trim_matches(|c| c == '{' || c == '}').to_string())
+    } else {
+        return Err(format!("NodeService::is_user_mode: body `{ium}`"));
+    };
+    let level_src = |e: &syn::Expr, what: &str| -> Result<Src, String> {
+        let c = compact(e);
+        if c == "false" || c == "true" {
+            return Ok(Src::Const(c));
+        }
+        if c == "self.service.is_user_mode()" {
+            return Ok(ium_src.clone());
+        }
+        match raw_path(e) {
+            Ok(raw) if raw == ["options", "user_mode"] => Ok(Src::Var(raw)),
+            Ok(raw) if raw.len() == 2 && raw[0] == "current_node_clone" => Ok(Src::Var(vec![raw[1].clone()])),
+            _ => Err(format!("{what}: service level `{c}`")),
+        }
+    };
+    let one_level = |block: &syn::Block, method: &str, what: &str| -> Result<Src, String> {
+        let calls = service_control_calls(block, method);
+        if calls.len() != 1 {
+            return Err(format!("{what}: expected exactly one service_control.{method}(..), found {}", calls.len()));
+        }
+        if calls[0].len() != 2 {
+            return Err(format!("{what}: {method}(..) with {} arguments", calls[0].len()));
+        }
+        level_src(&calls[0][1], what)
+    };
+    let add_install_level = one_level(&add_node.block, "install", "add_node")?;
+    let mgr_upgrade = impl_fn(&libf, "ServiceManager", None, "upgrade")?;
+    let upgrade_uninstall_level = one_level(&mgr_upgrade.block, "uninstall", "ServiceManager::upgrade")?;
+    let upgrade_install_level = one_level(&mgr_upgrade.block, "install", "ServiceManager::upgrade")?;
+
+    // (g) the daemon's restart path: two more `InstallNodeServiceCtxBuilder { .. }` literals in rpc.rs
+    let rpc_rel = "ant-node-manager/src/rpc.rs";
+    let rpcf = parse_file(&repo.join(rpc_rel))?;
+    let restart = free_fn(&rpcf, "restart_node_service")?;
+    let mut branches: Option<(&syn::Block, &syn::Block)> = None;
+    for st in &restart.block.stmts {
+        if let syn::Stmt::Expr(syn::Expr::If(i), _) = st {
+            if compact(&i.cond) == "retain_peer_id" {
+                let els = match &i.else_branch {
+                    Some((_, e)) => match &**e {
+                        syn::Expr::Block(b) => &b.block,
+                        _ => return Err("restart_node_service: `else if` after `if retain_peer_id`".into()),
+                    },
+                    None => return Err("restart_node_service: `if retain_peer_id` without else".into()),
+                };
+                if branches.is_some() {
+                    return Err("restart_node_service: two `if retain_peer_id`".into());
+                }
+                branches = Some((&i.then_branch, els));
+            }
+        }
+    }
+    let (retain_block, replace_block) = branches.ok_or("restart_node_service: no `if retain_peer_id { .. } else { .. }` at the top level")?;
+    let restart_lit = |block: &syn::Block, name: &str, what: &str| -> Result<Vec<(String, Src)>, String> {
+        let mut lit = literal_in(block, name, what)?;
+        for (k, v) in lit.iter_mut() {
+            let nv = match &*v {
+                Src::Const(c) if c == "None" => Src::Const("None".into()),
+                Src::Const(c) if c == "current_node_clone.get_antnode_port()" => Src::Var(vec!["#listenport".into()]),
+                Src::Const(c) if c == "false" || c == "true" || c.starts_with("ServiceStatus::") => Src::Const(c.clone()),
+                Src::Const(c) => return Err(format!("{what}: field `{k}` is `{c}`")),
+                Src::Var(p) if p.len() == 2 && p[0] == "current_node_clone" => Src::Var(vec![p[1].clone()]),
+                Src::Var(p) if p.len() == 2 && p[0] == "node_registry" && p[1] == "environment_variables" => Src::Var(vec!["#regenv".into()]),
+                Src::Var(p) if p.len() == 1 => Src::Var(vec!["#new".into(), p[0].clone()]),
+                Src::Var(p) => return Err(format!("{what}: field `{k}` reads `{}`", p.join("."))),
+                Src::Folded(..) => return Err(format!("{what}: folded field `{k}`")),
+            };
+            *v = nv;
+        }
+        Ok(lit)
+    };
+    let retain_lit = restart_lit(retain_block, "InstallNodeServiceCtxBuilder", "restart_node_service (retain)")?;
+    let replace_lit = restart_lit(replace_block, "InstallNodeServiceCtxBuilder", "restart_node_service (replacement)")?;
+    let replace_data = restart_lit(replace_block, "NodeServiceData", "restart_node_service (replacement)")?;
+    let retain_uninstall_level = one_level(retain_block, "uninstall", "restart_node_service (retain)")?;
+    let retain_install_level = one_level(retain_block, "install", "restart_node_service (retain)")?;
+    let replace_install_level = one_level(replace_block, "install", "restart_node_service (replacement)")?;
+    // no other place of the manager writes an antnode service definition
+    for (rel, expect) in [("ant-node-manager/src/rpc.rs", 2usize), ("ant-node-manager/src/add_services/mod.rs", 1), ("ant-node-manager/src/cmd/node.rs", 0), ("ant-node-manager/src/lib.rs", 0), ("ant-node-manager/src/local.rs", 0)] {
+        let f = parse_file(&repo.join(rel))?;
+        let mut v = FindStructOutsideTests { name: "InstallNodeServiceCtxBuilder", found: 0 };
+        syn::visit::Visit::visit_file(&mut v, &f);
+        if v.found != expect {
+            return Err(format!("{rel}: {} `InstallNodeServiceCtxBuilder {{ .. }}` literals outside tests (the model knows {expect})", v.found));
+        }
     }
 
     // (e) clap surface
@@ -1042,7 +1228,7 @@ pub fn generate(repo: &PathBuf) -> Result<String, String> {
     let parse_from = variant_string_table(&impl_fn(&logf, "LogFormat", None, "parse_from_str")?.block, "LogFormat::parse_from_str")?;
     let parse_from: Vec<(String, String)> = parse_from.into_iter().map(|(lit, _)| (lit.clone(), lit)).collect();
 
-    let mut s = header(&format!("{cfg_rel}, {mod_rel}, {svc_rel}, {cmd_rel}, ant-node/src/bin/antnode/{{main,subcommands}}.rs, ant-bootstrap/src/initial_peers.rs, ant-node/Cargo.toml"));
+    let mut s = header(&format!("{cfg_rel}, {mod_rel}, {svc_rel}, {cmd_rel}, {rpc_rel}, ant-node-manager/src/lib.rs, ant-node/src/bin/antnode/{{main,subcommands}}.rs, ant-bootstrap/src/initial_peers.rs, ant-node/Cargo.toml"));
     s.push_str("import SafeNet.Model.ArgTable\nnamespace SafeNet.Gen.Upgrade\nopen SafeNet.ArgTable\n\n");
     s.push_str(&lean_table("installTable", "`InstallNodeServiceCtxBuilder::build`: ordered (guard, long option, value) entries; paths are fields of `self`", &install));
     s.push_str(&lean_assoc("installCtx", "the other fields of the `ServiceInstallCtx` returned by `build`", &install_ctx));
@@ -1054,6 +1240,17 @@ pub fn generate(repo: &PathBuf) -> Result<String, String> {
     s.push_str(&format!("/-- where `add_node` stores `options.env_variables` (when `Some`) registry-wide, relative to the install loop and the failure return -/\ndef registryEnvStore : EnvStorePos := .{env_pos}\n"));
     s.push_str(&lean_assoc("localsLiteral", "locals of `add_node` computed from the options by string functions (read by both struct literals)", &locals_lit));
     s.push_str(&format!("/-- `antctl add` appends `ANT_PEERS` to `--peer` only when `--first` is not set -/\ndef envPeersSkippedForFirst : Bool := {}\n", lean_bool(env_peers_guarded)));
+    s.push_str(&format!("/-- `antctl add` keeps a `--bootstrap-cache-dir` given by the user (the service user's default only fills the gap); false = overwrites it -/\ndef addKeepsUserBootstrapCacheDir : Bool := {}\n", lean_bool(add_keeps_cache_dir)));
+    let lean_one = |name: &str, doc: &str, v: &Src| format!("/-- {doc} -/\ndef {name} : Src := {}\n", lean_src(v));
+    s.push_str(&lean_one("addInstallLevel", "second argument of `service_control.install(..)` in `add_node` (true = user level)", &add_install_level));
+    s.push_str(&lean_one("upgradeUninstallLevel", "`ServiceManager::upgrade`: level handed to `uninstall` (a registry field, through `NodeService::is_user_mode`)", &upgrade_uninstall_level));
+    s.push_str(&lean_one("upgradeInstallLevel", "`ServiceManager::upgrade`: level handed to `install`", &upgrade_install_level));
+    s.push_str(&lean_assoc("restartRetainLiteral", "`InstallNodeServiceCtxBuilder { .. }` of `rpc::restart_node_service`, peer id retained: builder field ↦ registry field of the restarted entry; `#listenport` = `get_antnode_port()` (port of the recorded listen address), `#regenv` = registry-wide environment", &retain_lit));
+    s.push_str(&lean_one("restartRetainUninstallLevel", "`restart_node_service` (retain): level handed to `uninstall`", &retain_uninstall_level));
+    s.push_str(&lean_one("restartRetainInstallLevel", "`restart_node_service` (retain): level handed to `install`", &retain_install_level));
+    s.push_str(&lean_assoc("restartReplaceLiteral", "`InstallNodeServiceCtxBuilder { .. }` of `rpc::restart_node_service`, replacement service: `#new.x` = local x derived from the new service name", &replace_lit));
+    s.push_str(&lean_assoc("restartReplaceData", "`NodeServiceData { .. }` recorded for the replacement service", &replace_data));
+    s.push_str(&lean_one("restartReplaceInstallLevel", "`restart_node_service` (replacement): level handed to `install`", &replace_install_level));
     s.push_str(&lean_pairs("evmDisplay", "`Display for evmlib::Network`: variant ↦ printed subcommand word", &evm_display));
     s.push_str(&lean_pairs("logFormatAsStr", "`LogFormat::as_str`", &as_str));
     s.push_str(&lean_pairs("logFormatParse", "`LogFormat::parse_from_str`: accepted literal ↦ itself", &parse_from));
